@@ -35,7 +35,7 @@ ASSUMPTIONS = [
 ]
 PROBES = ["op.form", "op.leave", "op.ensure", "op.scan", "event_before_response", "event_after_timeout", "event_at_deadline", "nonmatching_event",
           "duplicate_event", "refused", "no_response", "timeout_raised", "cancelled", "already_joined", "not_joined", "scan_result_before_issue",
-          "scan_result_before_response", "scan_result_after_completion", "scan_failed_completion", "repeated_operations"]
+          "scan_result_before_response", "scan_result_after_completion", "scan_failed_completion", "repeated_operations", "op.overlap", "overlap.refuse", "overlap.cancel", "overlap.timeout"]
 
 RD = (0.02, 1.0, None)
 ED = ("early", 0.5, "in", "tie", "late")  # offsets of an event
@@ -57,6 +57,7 @@ def plan(tier):
                     for i in range(0, len(scheds), chunk):
                         sweeps.append(("status", {"V": V, "op": op, "status": status, "rd": rdi, "scheds": scheds[i:i + chunk], "sched": False}))
         sweeps.append(("ensure_state", {"V": V, "sched": False}))
+        sweeps.append(("overlap", {"V": V, "sched": False}))
         for part in range(4):
             sweeps.append(("scan", {"V": V, "part": part, "sched": False}))
     return {
@@ -88,7 +89,11 @@ def run(scenario, params, tape, detail=False):
     listener_errors = []
 
     def deliver(req, payload):
-        sc = script.pop(req.name, None)
+        sc = script.get(req.name)
+        if isinstance(sc, list):
+            sc = sc.pop(0) if sc else None
+        else:
+            script.pop(req.name, None)
         if sc is None:
             req.nrsp += 1
             ncp.emit(payload, 0.0, "rsp", req.seq)
@@ -236,6 +241,82 @@ def run(scenario, params, tape, detail=False):
             if len(samples) < 2:
                 samples.append({"op": op, "V": V, "status": status, "response_delay": rd, "events": [(k, str(ED[d])) for k, d in evs], "outcome": out and (out[0], repr(out[1]), round(out[2] - t_issue, 4))})
 
+    async def op_overlap(ez, op, a_mode, gap):
+        """Two overlapping operations waiting for the same status: A ends early without ever seeing a matching event (refused, cancelled, or timed out),
+        B - issued while A was still pending - gets an OK response and its matching event afterwards and must return."""
+        nev[0] += 1
+        probe("op.overlap")
+        probe("overlap." + a_mode)
+        cmdname = [c for c in CMD[op] if c in ncp.cmds and (op != "ensure" or (c == "networkInitExtended") == (V < 6))][0]
+        nl0 = sum(len(v) for v in ez._stack_status_listeners.values())
+        ok_vals, no_vals = (St("OK"),), (St("INVALID_CALL"),)
+        ev = [(0.5, "stackStatusHandler", (St(MATCH[op]),))]
+        if a_mode == "refuse":
+            sa = {"status": "refuse", "rd": 0.2, "events": [], "rsp_vals": no_vals}
+        elif a_mode == "cancel":
+            sa = {"status": "OK", "rd": None, "events": [], "rsp_vals": ok_vals}  # cancelled before any answer; none follows
+        else:  # timeout: answered, never followed by the event
+            sa = {"status": "OK", "rd": 0.02, "events": [], "rsp_vals": ok_vals}
+            gap = 9.9
+        sb = {"status": "OK", "rd": 0.02, "events": ev, "rsp_vals": ok_vals}
+        script[cmdname] = [sa, sb]
+        net_state[0] = 0
+        f0 = len(frames)
+        outs = {}
+
+        async def call(k):
+            try:
+                if op == "form":
+                    r = await ez.formNetwork(parameters=t.EmberNetworkParameters.deserialize(bytes(40))[0])
+                elif op == "leave":
+                    r = await ez.leaveNetwork()
+                else:
+                    r = await appmod.ControllerApplication._ensure_network_running(types.SimpleNamespace(_ezsp=ez))
+                outs[k] = ("ok", r, loop.time())
+            except asyncio.CancelledError:
+                outs[k] = ("cancelled", None, loop.time())
+                raise
+            except BaseException as e:  # noqa: BLE001
+                outs[k] = ("raised", e, loop.time())
+
+        t0 = loop.time()
+        ta = loop.create_task(call("A"))
+        if a_mode == "cancel":
+            loop.external(t0 + min(gap, 0.01) + 0.005, ta.cancel, group=None)
+        await asyncio.sleep(gap)
+        t_b = loop.time()
+        tb = loop.create_task(call("B"))
+        await asyncio.sleep(13.0)
+        for tk in (ta, tb):
+            if not tk.done():
+                tk.cancel()
+        await asyncio.sleep(0.01)
+        my = frames[f0:]
+        codes = set(STATUS[MATCH[op]])
+        evt = [tt for (tt, name, vals) in my if name == "stackStatusHandler" and int(vals[0]) in codes and tt >= t_b]
+        rsp = [tt for (tt, name, vals) in my if name == cmdname]
+        tag = f"v{V} overlapping {op} x2: A {a_mode}, B issued {gap}s later"
+        ob = outs.get("B")
+        if evt and len(rsp) >= 1:
+            exp_t = max(evt[0], rsp[-1])
+            if ob is None or ob[0] != "ok" or abs(ob[2] - exp_t) > 1e-6:
+                viol.append(("C17.both", "missed-event-overlap", f"{tag}: B's command succeeded (t={rsp[-1]:.4f}) and the matching event was delivered at t={evt[0]:.4f}, after B was issued "
+                             f"(t={t_b:.4f}); B ended {ob and ob[0]} {ob and ob[1]!r} at t={ob and ob[2]}; A ended {outs.get('A') and outs['A'][0]}"))
+        else:
+            viol.append(("C17.both", "harness", f"{tag}: B's response/event not delivered (responses {rsp}, events {evt})"))
+        oa = outs.get("A")
+        if a_mode == "refuse" and (oa is None or oa[0] != "raised"):
+            viol.append(("C17.raise", "refused-not-raised", f"{tag}: A was refused but ended {oa and oa[0]}"))
+        if a_mode == "timeout" and (oa is None or oa[0] != "raised" or not isinstance(oa[1], asyncio.TimeoutError)):
+            # A's deadline (10.02 s after issue) lies before B's event (about 10.4 s)
+            viol.append(("C17.raise", "timeout-when", f"{tag}: A never saw an event before its deadline but ended {oa and oa[0]} {oa and oa[1]!r}"))
+        await asyncio.sleep(0.5)
+        script.pop(cmdname, None)
+        nl1 = sum(len(v) for v in ez._stack_status_listeners.values())
+        if nl1 != nl0:
+            viol.append(("C17.clean", "leak", f"{tag}: status listeners {nl0}->{nl1} after both calls ended"))
+        sigs.add(hashlib.blake2b(repr((V, "overlap", op, a_mode, gap, ob and ob[0], oa and oa[0])).encode(), digest_size=8).digest())
+
     async def op_scan(ez, status, pre, items, completion, cancel_at=None, label=""):
         """pre: result callbacks emitted before issue; items: [(slot, channel)] slots 'before_rsp','after_rsp','after_done'; completion 'ok'|'fail'|'none'"""
         nev[0] += 1
@@ -348,6 +429,13 @@ def run(scenario, params, tape, detail=False):
             for st_ in ("not_joined",):
                 probe("not_joined")
                 await op_status(ez, "ensure", st_, 0.02, [("match", 1)], label="not joined")
+        elif scenario == "overlap":
+            for op in ("form", "leave", "ensure"):
+                for a_mode in ("refuse", "cancel", "timeout"):
+                    for gap in (0.0, 0.01, 0.1):
+                        if a_mode == "timeout" and gap:
+                            continue
+                        await op_overlap(ez, op, a_mode, gap)
         elif scenario == "scan":
             slots = ("before_rsp", "after_rsp", "after_done")
             combos = []
@@ -372,6 +460,9 @@ def run(scenario, params, tape, detail=False):
             if n > 1:
                 probe("repeated_operations")
             for _ in range(n):
+                if tape.draw(6, "overlap?") == 5:
+                    await op_overlap(ez, ("form", "leave", "ensure")[tape.draw(3, "oop")], ("refuse", "cancel", "timeout")[tape.draw(3, "amode")], (0.0, 0.01, 0.1)[tape.draw(3, "ogap")])
+                    continue
                 k = tape.draw(4, "op")
                 cancel_at = (None, None, None, 0.0, 0.01, 0.03, 0.5, 5.0, 10.02)[tape.draw(9, "cancel")]
                 if k == 3:
